@@ -53,6 +53,9 @@ func main() {
 			res := fw.SafeCheck(p, raw)
 			if res.Verdict != fw.OK && res.Verdict != fw.Skip {
 				fmt.Printf("case %d %s sig=%q %s\n   input=%s\n", i, res.Verdict, res.Sig, res.Msg, raw)
+				if res.Stack != "" && os.Getenv("VERIF_STACK") != "" {
+					fmt.Println(res.Stack)
+				}
 			}
 			for _, r := range res.Reports {
 				fmt.Printf("case %d report-only: %s\n", i, r)
